@@ -31,7 +31,7 @@ ASSUMPTIONS = [
 ]
 REQUIRED_CLASSES = ["negative-step", "repeats", "empty-selection", "select-select-concat", "replace-then-select", "select-then-replace",
                     "crlf", "noncanonical-int", "unmodified", "modified", "observed-then-continued", "write-and-rows", "same-length-permutation", "typed-info", "typed-info-read-and-replace",
-                    "bam", "bam-write-selection", "bam-observe-after-write", "bam-get-then-write"]
+                    "bam", "bam-write-selection", "bam-observe-after-write", "bam-get-then-write", "bam-same-length-permutation"]
 BOUNDS = {"quick": "500 (file, program) pairs for each of 9 text format variants, up to 10 records, programs of up to 6 steps; 400 BAM pairs of up to 6 records",
           "thorough": "10000 pairs per text format, up to 30 records, programs of up to 8 steps; 9600 BAM pairs of up to 16 records"}
 BUDGET_S = {"quick": 200, "thorough": 1500}
